@@ -93,8 +93,24 @@ func runT8n(evmBin string, sc *me.Scenario, data []byte) (*t8nOut, error) {
 		}
 		al = append(al, tup)
 	}
-	tx := types.NewTx(&types.DynamicFeeTx{ChainID: big.NewInt(1), Nonce: sc.Tx.Nonce, GasTipCap: new(big.Int).SetUint64(sc.Tx.Tip),
-		GasFeeCap: new(big.Int).SetUint64(sc.Tx.FeeCap), Gas: sc.Tx.Gas, To: to, Value: new(big.Int).SetUint64(sc.Tx.Value), Data: data, AccessList: al})
+	var tx *types.Transaction
+	switch {
+	case sc.Tx.SetCode:
+		tx = types.NewTx(&types.SetCodeTx{ChainID: uint256.NewInt(1), Nonce: sc.Tx.Nonce, GasTipCap: uint256.NewInt(sc.Tx.Tip),
+			GasFeeCap: uint256.NewInt(sc.Tx.FeeCap), Gas: sc.Tx.Gas, To: *to, Value: uint256.NewInt(sc.Tx.Value), Data: data, AccessList: al,
+			AuthList: sc.Tx.AuthList})
+	case sc.Tx.BlobTx:
+		var hashes []common.Hash
+		for i, v := range sc.Tx.BlobVers {
+			hashes = append(hashes, common.Hash{byte(v), 0xb1, byte(i)})
+		}
+		tx = types.NewTx(&types.BlobTx{ChainID: uint256.NewInt(1), Nonce: sc.Tx.Nonce, GasTipCap: uint256.NewInt(sc.Tx.Tip),
+			GasFeeCap: uint256.NewInt(sc.Tx.FeeCap), Gas: sc.Tx.Gas, To: *to, Value: uint256.NewInt(sc.Tx.Value), Data: data, AccessList: al,
+			BlobFeeCap: uint256.NewInt(sc.Tx.BlobFeeCap), BlobHashes: hashes})
+	default:
+		tx = types.NewTx(&types.DynamicFeeTx{ChainID: big.NewInt(1), Nonce: sc.Tx.Nonce, GasTipCap: new(big.Int).SetUint64(sc.Tx.Tip),
+			GasFeeCap: new(big.Int).SetUint64(sc.Tx.FeeCap), Gas: sc.Tx.Gas, To: to, Value: new(big.Int).SetUint64(sc.Tx.Value), Data: data, AccessList: al})
+	}
 	signed, err := types.SignTx(tx, types.LatestSignerForChainID(big.NewInt(1)), senderKey)
 	if err != nil {
 		return nil, err
@@ -155,6 +171,17 @@ func firstIdx(xs []int64, x int64) int {
 func keyedSender(sc *me.Scenario) {
 	addr := crypto.PubkeyToAddress(senderKey.PublicKey)
 	s := sc.W.Get(me.AddrSender)
+	// the sender is interned first: the authorities' tokens move down by one
+	for _, a := range sc.W.Accounts {
+		if a.Real != nil {
+			a.Tok--
+		}
+	}
+	for i := range sc.Tx.Auths {
+		if sc.Tx.Auths[i].Authority <= -2 {
+			sc.Tx.Auths[i].Authority--
+		}
+	}
 	s.Real, s.Tok = &addr, -2
 	sc.Tx.FromReal, sc.Tx.From = &addr, -2
 }
@@ -167,6 +194,11 @@ func runT8nMode(path, evmBin string, seed int64, n, maxOps int, sum *tl.Summary)
 		sc := me.GenScenario(r)
 		keyedSender(sc)
 		me.ChooseGas(r, sc)
+		if (sc.Tx.SetCode && len(sc.Tx.AuthList) == 0) || (sc.Tx.BlobTx && len(sc.Tx.BlobVers) == 0) {
+			// shapes that only a hand-made Message can have: the typed transactions reject them earlier
+			sum.Count("skipped-shape")
+			continue
+		}
 		res := me.Execute(sc.W, sc.Tx, sc.Data, true)
 		sum.Evaluations++
 		out, err := runT8n(evmBin, sc, sc.Data)
